@@ -179,7 +179,8 @@ pub fn expand_templates(
             })
         })
         .collect();
-    expand(&mut toplevels, &templates, lsp_hints)?;
+    let mut expansions_left = MAX_TEMPLATE_EXPANSIONS;
+    expand(&mut toplevels, &templates, lsp_hints, &mut expansions_left)?;
 
     toplevels.into_iter().try_fold(vec![], |mut tls, tl| {
         tls.push(match &tl {
@@ -201,7 +202,18 @@ struct Replacement {
     insert_index: usize,
 }
 
-fn expand(exprs: &mut Vec<SExpr>, templates: &[Template], _lsp_hints: &mut LspHints) -> Result<()> {
+/// A template can only refer to templates defined before it, but a parameter value can be (or be
+/// concatenated into) `template-expand`/`t!` itself, which allows an expansion to reproduce itself
+/// forever, e.g. `(deftemplate a (x) ($x a $x)) (t! a t!)`. No sensible configuration gets near
+/// this many expansions.
+const MAX_TEMPLATE_EXPANSIONS: usize = 10_000;
+
+fn expand(
+    exprs: &mut Vec<SExpr>,
+    templates: &[Template],
+    _lsp_hints: &mut LspHints,
+    expansions_left: &mut usize,
+) -> Result<()> {
     let mut replacements: Vec<Replacement> = vec![];
     loop {
         for (expr_index, expr) in exprs.iter_mut().enumerate() {
@@ -212,9 +224,17 @@ fn expand(exprs: &mut Vec<SExpr>, templates: &[Template], _lsp_hints: &mut LspHi
                         l.t.first().and_then(|expr| expr.atom(None)),
                         Some("template-expand") | Some("t!")
                     ) {
-                        expand(&mut l.t, templates, _lsp_hints)?;
+                        expand(&mut l.t, templates, _lsp_hints, expansions_left)?;
                         continue;
                     }
+
+                    if *expansions_left == 0 {
+                        bail_span!(
+                            l,
+                            "Too many template expansions. Is this template expanding into itself?"
+                        );
+                    }
+                    *expansions_left -= 1;
 
                     // found expand, now parse
                     let template =
@@ -297,24 +317,24 @@ fn expand(exprs: &mut Vec<SExpr>, templates: &[Template], _lsp_hints: &mut LspHi
 
         // Ensure replacements are sorted. They probably are, but may as well make sure.
         replacements.sort_by_key(|r| r.insert_index);
-        // Must replace last-first to keep unreplaced insertion points stable.
-        // perf_2 : could construct vec in one pass.
-        for replacement in replacements.iter().rev() {
-            let (before, after) = exprs.split_at(replacement.insert_index);
-            let after = after.iter().skip(1); // first element is `(template-expand ...)`
-            let new_vec = before
-                .iter()
-                .cloned()
-                .chain(replacement.exprs.iter().cloned())
-                .chain(after.cloned())
-                .collect();
-            *exprs = new_vec;
-        }
-
         if replacements.is_empty() {
             break;
         }
-        replacements.clear();
+        // Construct the new list in one pass: each `(template-expand ...)` element is replaced by
+        // its expansion. (Rebuilding the whole list once per replacement is quadratic, which
+        // matters when an expansion multiplies itself up to the expansion limit.)
+        let mut new_vec = Vec::with_capacity(exprs.len());
+        let mut pending = replacements.drain(..).peekable();
+        for (expr_index, expr) in std::mem::take(exprs).into_iter().enumerate() {
+            match pending.peek() {
+                Some(replacement) if replacement.insert_index == expr_index => {
+                    new_vec.extend(pending.next().expect("peeked").exprs);
+                }
+                _ => new_vec.push(expr),
+            }
+        }
+        drop(pending);
+        *exprs = new_vec;
     }
 
     Ok(())
